@@ -20,25 +20,26 @@ def chunksOf (n : Nat) : Nat → Bytes → List Bytes
 structure Scenario where
   fs : Fs
   φ : Fault
-  destOld : Node
+  destOld : Option Node
 
-def scenario (oldn : Nat) (fault : String) : Option Scenario :=
-  let old := Node.file (oldOf oldn)
-  let base : Fs := [(destP, old), (srcP, .file (dataOf 10))]
+/-- `oldn = none`: the destination does not exist before the call (a fresh path) -/
+def scenario (oldn : Option Nat) (fault : String) : Option Scenario :=
+  let old : Option Node := oldn.map fun n => Node.file (oldOf n)
+  let base : Fs := (match old with | some o => [(destP, o)] | none => []) ++ [(srcP, .file (dataOf 10))]
   match fault.splitOn ":" with
   | ["none"] => some ⟨base, noFault, old⟩
   | ["devfull"] =>
     -- the temp name is a symlink to a device on which every write fails
     some ⟨(tmpOf destP, .symlink devP) :: (devP, .file []) :: base, { noFault with write := fun _ _ _ => .err }, old⟩
   | ["createfail"] => some ⟨(tmpOf destP, .dir) :: base, noFault, old⟩
-  | ["renamefail"] => some ⟨[(destP, .dir), (srcP, .file (dataOf 10))], noFault, .dir⟩
+  | ["renamefail"] => some ⟨[(destP, .dir), (srcP, .file (dataOf 10))], noFault, some .dir⟩
   | ["limit", k] =>
     match k.toNat? with
     | some k => some ⟨base, { noFault with write := limitPolicy k true }, old⟩
     | none => none
   | _ => none
 
-def handlePath (kind : String) (size oldn : Nat) (fault : String) : String :=
+def handlePath (kind : String) (size : Nat) (oldn : Option Nat) (fault : String) : String :=
   match scenario oldn fault with
   | none => "bad-op"
   | some sc =>
@@ -54,7 +55,7 @@ def handlePath (kind : String) (size oldn : Nat) (fault : String) : String :=
     | some (st, r) =>
       let d := get st.cur destP
       let dest :=
-        if d = some sc.destOld then "old"
+        if d = sc.destOld then "old"
         else if d = some (.file data) then "new"
         else "other"
       let tmp := if get st.cur (tmpOf destP) = none then "absent" else "left"
@@ -87,9 +88,11 @@ def handle (args : List String) : String :=
     | _, _, _ => "bad-op"
   | ["path", kind, _wb, size, oldn, fault] =>
     match size.toNat?, oldn.toNat? with
-    | some size, some oldn => handlePath kind size oldn fault
+    | some size, some oldn => handlePath kind size (some oldn) fault
+    | some size, none => if oldn = "absent" then handlePath kind size none fault else "bad-op"
     | _, _ => "bad-op"
   | ["kill", _, _] => "ok"
+  | ["watch", _, _, _] => "ok"
   | _ => "bad-op"
 
 end Umya.Driver.C13
